@@ -61,8 +61,10 @@ FoldRecv(view, evs) == IF evs = <<>> THEN view
 SeenIds(evs) == { evs[k].id : k \in 1..Len(evs) }
 Count(evs, id, v, onlyUpdates) == Cardinality({ k \in 1..Len(evs) : evs[k].id = id /\ evs[k].v = v /\ (~onlyUpdates \/ ~evs[k].seed) })
 
+\* (a subscriber that cancelled is no longer "a reader that keeps receiving": nothing is asserted about it)
 C03Fails(t) ==
   UNION {
+    IF t.cancelled[s] THEN {} ELSE
     LET evs == t.recv[s]
         view == FoldRecv([i \in 1..Len(t.init) |-> Absent], evs)
         ids == IF t.kinds[s].uo THEN SeenIds(evs) ELSE 1..Len(t.init)
